@@ -87,6 +87,26 @@ Theorem C06_splitpq_partial : forall fuel fuel_inner (rnd : nat -> N) pq a b,
 Proof. exact split_model_sound. Qed.
 Print Assumptions C06_splitpq_partial.
 
+(* What IS proved about termination: one attempt of the loop (the inner loop) always ends - it makes at most lim - j
+   more steps whatever the numbers are -, so SplitPQ can fail to return only by making attempt after attempt each of which
+   comes back without a proper factor: if [fuel] attempts (with inner fuel above the largest bound 2^(i+fuel+18)) did
+   not suffice, then every single one of them ended with a g outside (1, pq).  The number of attempts is what depends on
+   the random stream. *)
+Theorem C06_splitpq_attempt_terminates : forall what fuel q x y j lim g0,
+  (N.to_nat (lim - j) < fuel)%nat -> rho_inner fuel what q x y j lim g0 <> None.
+Proof. exact rho_inner_terminates. Qed.
+Print Assumptions C06_splitpq_attempt_terminates.
+
+Theorem C06_splitpq_fails_only_by_failed_attempts : forall fi (rnd : nat -> N) what fuel k i,
+  (N.to_nat (2 ^ (i + N.of_nat fuel + 18)) < fi)%nat ->
+  rho_outer fuel fi rnd k what i = None ->
+  forall a, (a < fuel)%nat ->
+    exists g, rho_inner fi what ((N.land (rnd (k + 2 * a)%nat) 15 + 17) mod what)
+                (rnd (S (k + 2 * a)) mod (what - 1) + 1) (rnd (S (k + 2 * a)) mod (what - 1) + 1) 1
+                (2 ^ (i + N.of_nat a + 18)) 0 = Some g /\ ((1 <? g) && (g <? what) = false).
+Proof. exact rho_outer_none_all_failed. Qed.
+Print Assumptions C06_splitpq_fails_only_by_failed_attempts.
+
 (* ---- 3. no hypothesis left about SHA-1 lengths, AES, Exp and the factorisation loop ----
    Gallina SHA-1 / AES-256 / square-and-multiply and the loop model as the instances: what remains are the premises
    about the inputs (conformant server, well-formed draws), "the loop returns", ProbablyPrime's soundness and the
